@@ -562,6 +562,45 @@ pub fn c12_case(rp: &Position, positional: bool) -> (bool, bool, Vec<Divergence>
     (!mates.is_empty(), false, d)
 }
 
+/// the same two implications at later expiry points: whatever number of passes has completed, a
+/// mate-in-one score comes with a mating move, and an available mate in one is what is returned
+pub fn c12_deeper(rp: &Position, positional: bool, ks: &[u64]) -> (u64, Vec<Divergence>) {
+    let fen = rp.to_fen();
+    let Ok(board) = parse_board(&fen) else { return (0, vec![]) };
+    let mates = rp.mating_moves();
+    let want = mover_mate_in_one(rp.turn);
+    let mut d = vec![];
+    let mut n = 0;
+    for &k in ks {
+        let o = match search_k(&board, k, positional) {
+            Ok(o) => o,
+            Err(msg) => {
+                d.push(Divergence::new("search-panics", format!("{fen}: {msg}")));
+                break;
+            }
+        };
+        n += 1;
+        let got_mv = o.mv.map(ref_mv);
+        let completed = o.max_depth != SENTINEL || o.polls <= k;
+        if o.score == want && !got_mv.map_or(false, |m| mates.contains(&m)) {
+            d.push(Divergence::new(
+                "mate-in-one-reported-but-move-does-not-mate",
+                format!("{fen}: at k={k} (depth {}) reports {} with move {:?}, mating moves are [{}]", o.max_depth, score_name(o.score), got_mv.map(|m| m.uci()), moves_str(&mates)),
+            ));
+        }
+        if completed && !mates.is_empty() && !(got_mv.map_or(false, |m| mates.contains(&m)) && o.score == want) {
+            d.push(Divergence::new(
+                "mate-in-one-missed",
+                format!("{fen}: at k={k} (depth {}) mating moves [{}], search returned {:?} with {}", o.max_depth, moves_str(&mates), got_mv.map(|m| m.uci()), score_name(o.score)),
+            ));
+        }
+        if o.polls <= k {
+            break;
+        }
+    }
+    (n, d)
+}
+
 fn kxk_family(piece: refchess::Pc, pawn_seventh_only: bool) -> Vec<Position> {
     use refchess::Pc;
     let mut out = vec![];
@@ -1091,6 +1130,17 @@ pub fn run_c12(args: &Args) -> i32 {
             report.record(d, || json!({"kind": "mate", "fen": p.to_fen(), "positional": positional}));
         }
     }
+    // later expiry points (several completed passes) on every `deep_stride`-th position
+    let deep_stride = args.tier.pick(149usize, 8);
+    let ks: &[u64] = if args.tier == Tier::Quick { &[1_500, 12_000] } else { &[1_500, 12_000, 100_000] };
+    let deep: Vec<&Position> = positions.iter().step_by(deep_stride).collect();
+    let res: Vec<(u64, Vec<Divergence>)> = deep.par_iter().map(|p| c12_deeper(p, false, ks)).collect();
+    let mut deeper_searches = 0u64;
+    for (p, (n, d)) in deep.iter().zip(res.iter()) {
+        deeper_searches += n;
+        report.record(d, || json!({"kind": "mate-deeper", "fen": p.to_fen(), "positional": false, "ks": ks}));
+    }
+    runs += deeper_searches;
     restore_panics();
     if with_mate < 100 {
         machinery_failure("C12: fewer than 100 mate-in-one positions completed a pass: vacuous");
@@ -1099,9 +1149,10 @@ pub fn run_c12(args: &Args) -> i32 {
         json!({
             "evaluations": runs,
             "distinct_nontrivial": with_mate,
-            "rule": "all KQ-K, KR-K and KP(7th rank)-K positions with either side to move, every 16th (thorough: every 2nd) K+Q v K + black N/R position and all K+P(7th) v K + capturable piece beside the promotion square positions (mates that compete with captures, which the engine iterates first under a mask), the capture-mates that leave only kings and minor pieces (black king in a corner region, blocker, white minor, victim; every 5th quick) the promotion-only mates (pawn on the 7th, two black men beside the black king; every 3rd quick) and the knight-under-promotion mates where the queen promotion to the same square does not mate (one white helper piece anywhere; every 4th quick) selected by the reference, the en-passant edge cases (a double push gives check and en passant is the only defence; an en-passant capture mates) selected from the en-passant families, every scenario root and 22 hand-built mates (three of them: in check with a single legal move that mates) (several mating moves, under-promotion mate, en-passant mate, discovered mate, Black mating), each in both colours and with positional evaluation off and on; each is searched with the smallest k = 32*2^i that lets the first deepening pass complete. Non-trivial = (position, configuration) pairs that have a mate in one AND completed a pass; the rest exercise 'a mate-in-one score is reported only when the move mates'.",
+            "rule": "all KQ-K, KR-K and KP(7th rank)-K positions with either side to move, every 16th (thorough: every 2nd) K+Q v K + black N/R position and all K+P(7th) v K + capturable piece beside the promotion square positions (mates that compete with captures, which the engine iterates first under a mask), the capture-mates that leave only kings and minor pieces (black king in a corner region, blocker, white minor, victim; every 5th quick) the promotion-only mates (pawn on the 7th, two black men beside the black king; every 3rd quick) and the knight-under-promotion mates where the queen promotion to the same square does not mate (one white helper piece anywhere; every 4th quick) selected by the reference, the en-passant edge cases (a double push gives check and en passant is the only defence; an en-passant capture mates) selected from the en-passant families, every scenario root and 22 hand-built mates (three of them: in check with a single legal move that mates) (several mating moves, under-promotion mate, en-passant mate, discovered mate, Black mating), each in both colours and with positional evaluation off and on; each is searched with the smallest k = 32*2^i that lets the first deepening pass complete; every 149th (thorough: 8th) position is also searched at the later expiry points k = 1500, 12000 (thorough: and 100000), where several passes have completed, with the same two implications. Non-trivial = (position, configuration) pairs that have a mate in one AND completed a pass; the rest exercise 'a mate-in-one score is reported only when the move mates'.",
             "positions": positions.len(),
             "searches_that_completed_a_pass": completed,
+            "searches_at_later_expiry_points": deeper_searches,
             "exhaustive": true,
             "samples": [sample],
         }),
@@ -1307,6 +1358,68 @@ fn material_threshold_family(band: i32, per_signature: usize) -> Vec<Position> {
     out
 }
 
+/// A fixed catalogue of sparse positions: `n` candidates drawn from a fixed xorshift sequence (the
+/// same list on every run and for every seed) - each side a king plus 0..=4 men (queen, rook,
+/// bishop, knight, pawn), anywhere on the board, either side to move, nobody in check, no promotion
+/// move at the root.  Not a closed domain: see DESIGN.md (C13) for why it is there.
+fn sparse_catalogue(n: usize) -> Vec<Position> {
+    use refchess::Pc;
+    let mut out = vec![];
+    let mut state: u64 = 0x2545_F491_4F6C_DD1D;
+    let mut next = |m: u64| {
+        state ^= state << 13;
+        state ^= state >> 7;
+        state ^= state << 17;
+        (state >> 11) % m
+    };
+    let kinds = [Pc::Q, Pc::R, Pc::B, Pc::N, Pc::P, Pc::P, Pc::B, Pc::N];
+    for _ in 0..n {
+        let mut p = Position::empty();
+        p.turn = if next(2) == 0 { Col::W } else { Col::B };
+        p.full = 1;
+        let mut ok = true;
+        let mut put = |p: &mut Position, c: Col, pc: Pc, next: &mut dyn FnMut(u64) -> u64| -> bool {
+            for _ in 0..32 {
+                let sq = if pc == Pc::P {
+                    let rank = 1 + next(5) as u8;
+                    let rank = if c == Col::W { rank } else { 7 - rank };
+                    rank * 8 + next(8) as u8
+                } else {
+                    next(64) as u8
+                };
+                if p.board[sq as usize].is_none() {
+                    p.board[sq as usize] = Some((c, pc));
+                    return true;
+                }
+            }
+            false
+        };
+        ok &= put(&mut p, Col::W, Pc::K, &mut next);
+        ok &= put(&mut p, Col::B, Pc::K, &mut next);
+        for c in [Col::W, Col::B] {
+            let men = next(5);
+            for _ in 0..men {
+                let pc = kinds[next(kinds.len() as u64) as usize];
+                ok &= put(&mut p, c, pc, &mut next);
+            }
+        }
+        if !ok || p.valid_root().is_err() {
+            continue;
+        }
+        let mut other = p.clone();
+        other.turn = p.turn.flip();
+        if other.valid_root().is_err() {
+            continue;
+        }
+        let l = p.legal_moves();
+        if l.is_empty() || l.iter().any(|m| m.promo.is_some()) {
+            continue;
+        }
+        out.push(p);
+    }
+    out
+}
+
 pub fn run_c13(args: &Args) -> i32 {
     let report = Report::new("C13", args.tier, args.seed, "exploration");
     silence_panics();
@@ -1360,6 +1473,11 @@ pub fn run_c13(args: &Args) -> i32 {
         let fam = material_threshold_family(args.tier.pick(100, 200), args.tier.pick(1, 3));
         eprintln!("[C13] material-threshold family: {} positions", fam.len());
         positions.extend(fam);
+    }
+    if let Ok(n) = std::env::var("C13_SPARSE_ONLY") {
+        // experiment switch: only the sparse catalogue of the given size
+        positions = sparse_catalogue(n.parse().unwrap_or(1000));
+        eprintln!("[C13] sparse catalogue only: {} positions", positions.len());
     }
     // no promotion available at the root (property text); one representative per mirror pair
     positions.retain(|p| !p.legal_moves().iter().any(|m| m.promo.is_some()) && !p.mirror().legal_moves().iter().any(|m| m.promo.is_some()));
@@ -1419,6 +1537,10 @@ pub fn replay(prop: &str, case: &Value) -> Vec<Divergence> {
             }
             let board = parse_board(fen).unwrap();
             c11_case(&rp, &board, &rp.legal_moves(), case["k"].as_u64().unwrap(), case["positional"].as_bool().unwrap_or(false)).1
+        }
+        "C12" if case["kind"].as_str() == Some("mate-deeper") => {
+            let ks: Vec<u64> = case["ks"].as_array().map(|a| a.iter().filter_map(|x| x.as_u64()).collect()).unwrap_or_default();
+            c12_deeper(&rp, false, &ks).1
         }
         "C12" => c12_case(&rp, case["positional"].as_bool().unwrap_or(false)).2,
         _ => c13_case(&rp, 200_000, 3).1,
